@@ -2,7 +2,10 @@ package main
 
 // C06 (append-only, context-free, repeatable), C07 (exact consumption, streaming), C11 (truncation rejected).
 
-import "fmt"
+import (
+	"fmt"
+	"strings"
+)
 
 func init() {
 	drivers["C06"] = &Driver{Prop: "C06", Level: "model_checking",
@@ -50,6 +53,32 @@ func init() {
 				items = append(items, Item{ID: "tail:" + mc.ID(), Run: func(c *Ctx) { c07tail(c, mc) }})
 				if mc.N <= 1 {
 					items = append(items, Item{ID: "pair:" + mc.ID(), Run: func(c *Ctx) { c07pair(c, mc) }})
+				}
+			}
+			// list primitives at lengths far beyond the message shapes (thresholds, chunking, pre-sizing)
+			for _, p := range c.primInstances() {
+				p := p
+				switch p.Family {
+				case "WriteBasicTypeList", "WriteStringList", "WriteFixedStringList", "WriteObjectList":
+				default:
+					continue
+				}
+				if p.Family == "WriteBasicTypeList" && p.TArgs[1] != "uint16" && p.TArgs[1] != "uint8" && p.TArgs[1] != "int64" {
+					continue
+				}
+				if p.Family == "WriteStringList" && p.TArgs[1] != "uint8" {
+					continue
+				}
+				lens := []int{3, 33, 64, 65, 129, 255}
+				if p.TArgs[0] != "uint8" {
+					lens = append(lens, 256)
+					if p.Family == "WriteBasicTypeList" {
+						lens = append(lens, 1025)
+					}
+				}
+				for _, n := range lens {
+					n := n
+					items = append(items, Item{ID: fmt.Sprintf("primlist:%s/n=%d", p.Name, n), Run: func(c *Ctx) { c07primList(c, p, n) }})
 				}
 			}
 			return items
@@ -127,6 +156,36 @@ func c06(c *Ctx, mc MsgCase, H int) {
 			continue
 		}
 		A := unread(f1.heap[h.bufID])
+		// bytes.Buffer contract: a Bytes()/Next() view is only valid until the next modification. A view that is
+		// used after a later write may point into memory the buffer has moved away from (grow slides unread data
+		// down without reallocating when enough of the buffer was already consumed): candidate, decided natively
+		// with a long consumed prefix.
+		for _, note := range f1.notes {
+			if !strings.HasPrefix(note, "stale-view") {
+				continue
+			}
+			note := note
+			c.Prove(f1, "no-stale-buffer-view", False, func(val func(*Term) uint64) *Violation {
+				v := h.g.Concretize(h.m, val)
+				st := []map[string]any{
+					step("op", "newbuf", "buf", "b1", "hex", ""),
+					step("op", "newmsg", "msg", "m", "module", mc.Mod, "type", mc.Typ, "value", v),
+					step("op", "encode", "msg", "m", "buf", "b1"),
+				}
+				// mostly consumed buffers whose spare capacity runs out at different points of the frame
+				var steps []int
+				for i, spare := range []int{0, 5, 9, 12, 16, 24, 40, 64, 100, 160, 300} {
+					bn, mn := fmt.Sprintf("h%d", i), fmt.Sprintf("m%d", i)
+					st = append(st, step("op", "newbuf", "buf", bn, "hex", strings.Repeat("00", 4096)+"6162", "consume", 4096, "n", spare),
+						step("op", "newmsg", "msg", mn, "module", mc.Mod, "type", mc.Typ, "value", v),
+						step("op", "encode", "msg", mn, "buf", bn))
+					steps = append(steps, len(st)-1)
+				}
+				return &Violation{Detail: "Encode depends on how much of the buffer was already consumed: " + note,
+					Replay: &ReplayReq{Steps: st, Judge: Judge{Kind: "same_as_step", Step: steps[0], Step2: 2, ExpectHex: "6162", Steps: steps}}}
+			})
+			break // one candidate per path is enough
+		}
 		e.pushCall(f1, h.enc, []Value{m2, &Ptr{Obj: buf2}}, nil)
 		for _, f2 := range e.Run(f1) {
 			if c.PathProblem(f2, "Encode#2", func(val func(*Term) uint64, msg string) *Violation {
@@ -413,6 +472,86 @@ func c11(c *Ctx, mc MsgCase) {
 					return map[string]any{"cut": val(k), "length": val(A.Len)}
 				})
 			}
+		}
+	}
+}
+
+// c07primList: n elements written by a list writer, two arbitrary bytes appended, read back by the twin reader:
+// n elements equal to the ones written, exactly the two tail bytes left.
+func c07primList(c *Ctx, p primInst, n int) {
+	e := c.e()
+	h := c.buildWriterShared(p, n)
+	if h == nil {
+		return
+	}
+	rname := "Read" + strings.TrimPrefix(p.Base, "Write")
+	var rp *primInst
+	for _, q := range c.primInstances() {
+		q := q
+		if q.Base == rname && strings.Join(q.TArgs, ",") == strings.Join(p.TArgs, ",") {
+			rp = &q
+		}
+	}
+	if rp == nil {
+		c.Inconclusive("no reader twin " + rname)
+		return
+	}
+	t0, t1 := e.freshVar("tail", 8), e.freshVar("tail", 8)
+	oldU := e.unroll
+	e.unroll = n + 8
+	defer func() { e.unroll = oldU }()
+	rargs := []Value{&Ptr{Obj: h.bufID}}
+	rj := []any{map[string]any{"buf": "b"}}
+	switch rp.Family {
+	case "ReadFixedStringList":
+		rargs = append(rargs, CI(2))
+		rj = append(rj, "2")
+	case "ReadObjectList":
+		rargs = append(rargs, &FuncV{Fn: c.w.fn("codec.NewZzObj")})
+		rj = append(rj, nil)
+	}
+	if rp.Fn.Signature.Params().Len() != len(rargs) {
+		panic(bindErr("reader signature of " + rp.Name))
+	}
+	steps := func(val func(*Term) uint64) []map[string]any {
+		return []map[string]any{
+			step("op", "newbuf", "buf", "b", "hex", ""),
+			step("op", "prim", "fn", p.Name, "args", h.jargs(val)),
+			step("op", "fillbuf", "buf", "b", "n", 1, "fill", int(val(t0))),
+			step("op", "fillbuf", "buf", "b", "n", 1, "fill", int(val(t1))),
+			step("op", "prim", "fn", rp.Name, "args", rj),
+		}
+	}
+	e.pushCall(h.s, p.Fn, h.args, nil)
+	for _, ws := range e.Run(h.s) {
+		if c.PathProblem(ws, p.Name, nil) || !isNilErr(ws.ret) {
+			continue
+		}
+		b := ws.heap[h.bufID]
+		b.B = Concat2(b.B, VecBytes([]*Term{t0, t1}))
+		e.pushCall(ws, rp.Fn, rargs, nil)
+		for _, rs := range e.Run(ws) {
+			if c.PathProblem(rs, rp.Name, func(val func(*Term) uint64, msg string) *Violation {
+				return &Violation{Obligation: "no-panic", Detail: rp.Name + " panics on its writer's output: " + msg, Replay: &ReplayReq{Steps: steps(val), Judge: Judge{Kind: "panic"}}}
+			}) {
+				continue
+			}
+			rv := rs.ret.(TupleV)
+			mk := func(what string) func(val func(*Term) uint64) *Violation {
+				return func(val func(*Term) uint64) *Violation {
+					return &Violation{Detail: fmt.Sprintf("%s with %d elements: %s", rp.Name, n, what),
+						Replay: &ReplayReq{Steps: steps(val), Judge: Judge{Kind: "buf_ne", Step: 4, ExpectHex: hexOf([]byte{byte(val(t0)), byte(val(t1))})}}}
+				}
+			}
+			if !isNilErr(rv[1]) {
+				c.Prove(rs, "reads-back", False, mk("the reader rejects its writer's output"))
+				continue
+			}
+			res := rv[0].(*SliceV)
+			c.Prove(rs, "element-count", Eq(res.Len, CI(int64(n))), mk(fmt.Sprintf("%v elements come back", res.Len.Val)))
+			rest := unread(rs.heap[h.bufID])
+			c.Prove(rs, "exact-consumption", And(Eq(rest.Len, CI(2)), Eq(rest.At(CI(0)), t0), Eq(rest.At(CI(1)), t1)), mk("the bytes after the list are not left exactly as they were"))
+			c.Witness(rs, "list round trip", func(val func(*Term) uint64) any { return map[string]any{"fn": p.Name, "n": n} })
 		}
 	}
 }
